@@ -429,6 +429,60 @@ theorem detachGo_inv (Hc : Str → Str) {s s' : LState} {u fuel : Nat} {os b : B
     (h : detachGo fuel os s u = (s', some b)) : Inv Hc s' :=
   detachGo_invX Hc hI h (fun _ _ hx => hx.elim)
 
+/-- `detach` never touches its start node: whatever changed is a child of a node that was unregistered -/
+theorem detachGo_touched (fuel : Nat) (os : Bool) (s : LState) (u : Nat) (b : Bool)
+    (hb : (detachGo fuel os s u).2 = some b) :
+    ∀ x, (detachGo fuel os s u).1.obj x ≠ s.obj x →
+      ∃ p, Unreg s (detachGo fuel os s u).1 p ∧ x ∈ (s.obj p).kidList := by
+  cases fuel with
+  | zero => simp [detachGo] at hb
+  | succ fuel =>
+    unfold detachGo at hb ⊢
+    by_cases hd : s.detached u = true
+    · simp only [hd, if_true]; intro x hx; exact absurd rfl hx
+    · simp only [hd, Bool.false_eq_true, if_false] at hb ⊢
+      by_cases hr : (!s.isAttachedRoot u) = true
+      · simp only [hr, if_true]; intro x hx; exact absurd rfl hx
+      · simp only [hr, Bool.false_eq_true, if_false] at hb ⊢
+        have hatt : Att s u := by
+          rw [← detached_eq_false_iff]; cases h : s.detached u <;> simp_all
+        cases hl : detachKids (detachGo fuel false) os s (s.obj u).kidList with
+        | mk s1 fl =>
+          rw [hl] at hb
+          cases fl with
+          | false => simp at hb
+          | true =>
+            simp only
+            have hk := detachKids_facts (detachGo fuel false) os (fun s c b h => detachGo_facts fuel false s c b h)
+              (s.obj u).kidList s (by rw [hl])
+            rw [hl] at hk
+            obtain ⟨hk1, _⟩ := hk
+            have hsu := shrinks_unregister s1 (s1.idOf u)
+            have hnatt : ¬ Att (s1.unregister (s1.idOf u)) u := by
+              unfold Att; rw [unregister_idOf, unregister_lookup]; simp
+            intro x hx
+            have hx' : s1.obj x ≠ s.obj x := hx
+            rcases hk1.touched x hx' with h | ⟨p, hp, hxp⟩
+            · exact ⟨u, ⟨hatt, hnatt⟩, h⟩
+            · exact ⟨p, ⟨hp.1, fun h => hp.2 (hsu.att h)⟩, hxp⟩
+
+/-- a finished `detach` of an attached root leaves it detached -/
+theorem detachGo_root_detaches {s s' : LState} {u fuel : Nat} {os b : Bool} (hua : Att s u)
+    (hroot : s.parent u = none) (h : detachGo fuel os s u = (s', some b)) : ¬ Att s' u := by
+  cases fuel with
+  | zero => simp [detachGo] at h
+  | succ fuel =>
+    unfold detachGo at h
+    have hd : s.detached u = false := (detached_eq_false_iff s u).mpr hua
+    have hr : s.isAttachedRoot u = true := by simp [LState.isAttachedRoot, hroot, hd]
+    simp only [hd, Bool.false_eq_true, if_false, hr, Bool.not_true] at h
+    split at h
+    · cases h
+    · next t heq =>
+      simp only [Prod.mk.injEq] at h
+      rw [← h.1]
+      unfold Att; rw [unregister_idOf, unregister_lookup]; simp
+
 /-! ### `detach_self` in closed form -/
 
 theorem foldl_clearParent_lookup : ∀ (ks : List Nat) (s : LState) (k : Str),
@@ -584,5 +638,45 @@ theorem detachGo_desc : ∀ (fuel : Nat) (os : Bool) (s : LState) (u : Nat) (b :
               · simp [e] at hnq; exact absurd h1 hnq
             · obtain ⟨c, hc, hd⟩ := hD q ⟨hq.1, h1⟩
               exact Desc.trans_kid hc hd
+
+/-! ### a computable sufficient condition for `¬ Desc s u p` -/
+
+/-- walk up from `x` along `parent`: `true` iff a root is reached within the fuel without meeting `u` -/
+def upFree (s : LState) (u : Nat) : Nat → Nat → Bool
+  | 0, _ => false
+  | fuel + 1, x =>
+    if x = u then false
+    else match s.parent x with
+      | none => true
+      | some q => upFree s u fuel q
+
+/-- descendants of an attached node are attached, and walking up from them meets that node -/
+theorem upFree_of_desc {Hc : Str → Str} {X : Nat → (Nat × Str × Option Nat) → Prop} {Y : Nat → Prop} {s : LState}
+    (hI : InvX Hc X Y s) {u q : Nat} (hu : Att s u) (hd : Desc s u q)
+    (hX : ∀ w e, X w e → ¬ Desc s u w) : Att s q ∧ ∀ fuel, upFree s u fuel q = false := by
+  induction hd with
+  | refl => exact ⟨hu, fun fuel => by cases fuel <;> simp [upFree]⟩
+  | @step q' q hd' hk ih =>
+    obtain ⟨hq', hup⟩ := ih
+    obtain ⟨e, he, he1⟩ := (mem_kidList_iff _ _).mp hk
+    obtain ⟨a, b, _, _⟩ := hI.down q' hq' e he (fun hx => hX q' e hx hd')
+    rw [he1] at a b
+    refine ⟨a, fun fuel => ?_⟩
+    cases fuel with
+    | zero => rfl
+    | succ f =>
+      unfold upFree
+      by_cases hqu : q = u
+      · simp [hqu]
+      · simp only [hqu, if_false]
+        have : s.parent q = some q' := by unfold LState.parent; rw [b]; exact hq'
+        rw [this]; exact hup f
+
+/-- the decidable form of the acyclicity side condition -/
+theorem not_desc_of_upFree {Hc : Str → Str} {s : LState} (hI : Inv Hc s) {u p fuel : Nat} (hu : Att s u)
+    (h : upFree s u fuel p = true) : ¬ Desc s u p := by
+  intro hd
+  have := (upFree_of_desc hI hu hd (fun _ _ hx => hx.elim)).2 fuel
+  rw [h] at this; cases this
 
 end PyOak.Legacy
